@@ -14,7 +14,7 @@ use crate::proto::{Ctx, attrs};
 pub fn meta() -> Meta {
     Meta {
         level: "exploration",
-        rule: "exhaustive for n=3: all 256 functions x all 6 orders x kinds {bdd,bcdd,zbdd}: pick_cube and pick_cube_dd under all 8 per-level choice vectors (closure calls recorded), pick_cube_dd_set under all 27 literal sets, pick_cube_uniform for RNG seeds 0..64 with exact replay of the WyRand stream against model branch probabilities. The expected cube is derived from the truth-table/family model alone (forced <=> other cofactor unsatisfiable; independent/hi==lo <=> don't care; ZBDD skipped level <=> false). thorough: n=4, 2 orders, 16 choice vectors, 81 literal sets. Non-trivial: the function is satisfiable and not a tautology.",
+        rule: "exhaustive for n=3: all 256 functions x all 6 orders x kinds {bdd,bcdd,zbdd}: pick_cube and pick_cube_dd under all 8 per-level choice vectors (closure calls recorded), pick_cube_dd_set under all 27 literal sets, pick_cube_uniform for RNG seeds 0..64 with exact replay of the WyRand stream against model branch probabilities, with a fresh count cache per call and with one cache (cache_all) shared by all functions across two reorderings. The expected cube is derived from the truth-table/family model alone (forced <=> other cofactor unsatisfiable; independent/hi==lo <=> don't care; ZBDD skipped level <=> false). thorough: n=4, 2 orders, 16 choice vectors, 81 literal sets. Non-trivial: the function is satisfiable and not a tautology.",
         assumptions: vec![
             "nanorand::WyRand (oxidd::util::Rng) is deterministic for a given seed; the harness clones the generator to predict draws".into(),
             "statistical uniformity is not sampled; it follows from exact agreement with the model's models-proportional branch probabilities".into(),
@@ -352,6 +352,23 @@ where
                     match s {
                         Step::Done => break,
                         Step::DontCare => {
+                            // a ZBDD has a node with two equal children here: there is a choice, and a
+                            // literal of the set decides it (BDD/BCDD have no node on this level at all)
+                            if zbdd {
+                                let want = if (pos >> v) & 1 == 1 {
+                                    Some(true)
+                                } else if (neg >> v) & 1 == 1 {
+                                    Some(false)
+                                } else {
+                                    None
+                                };
+                                if let Some(w) = want {
+                                    if cube[v as usize] != Some(w) {
+                                        bad = Some(format!("variable {v} is free at a node with equal children and occurs {} in the literal set but the cube has {:?}", if w { "positively" } else { "negatively" }, cube[v as usize]));
+                                        break;
+                                    }
+                                }
+                            }
                             g = g1;
                         }
                         Step::Forced(b) => {
@@ -436,4 +453,52 @@ where
         }
         ctx.sample(|| case::<K>(n, &order, "pick_cube", 0xe8, json!({"choice_vector_by_level": 5}), "-", "-"));
     });
+    // uniform picking with ONE caller-owned count cache for all functions, used before and after a
+    // reordering (every node counted): the branch probabilities must be those of the current diagram
+    if part.is_none() {
+        ctx.group(&format!("pick_cube_uniform n={n}, one cache across a reordering"), |ctx| {
+            // (a sparse live set: with all 256 functions alive no node ever dies in a level swap)
+            let live_tabs: Vec<Tab> = model::subset3().into_iter().step_by(5).chain([0xe8u64, 0x96, 0xca, 0x1b, 0x6a]).collect();
+            let (mref, fns0) = functions_of::<K>(n, &order, 1024, tc, &live_tabs);
+            let fns: Vec<(Tab, K::F)> = live_tabs.iter().copied().zip(fns0).collect();
+            let mut cache: SatCountCache<oxidd::util::num::F64, std::hash::BuildHasherDefault<rustc_hash::FxHasher>> = SatCountCache::default();
+            cache.cache_all = true;
+            let mut cur = order.clone();
+            for phase in 0..3 {
+                if phase > 0 {
+                    cur.rotate_left(1);
+                    K::set_order(&mref, &cur);
+                    // new functions (their nodes may reuse slots that the reordering freed)
+                    let _h: Vec<_> = [0x3cu64, 0xa0, 0x5a, 0xc0].iter().map(|&t| K::build(&mref, t ^ phase as u64)).collect();
+                }
+                for (t, f) in fns.iter() {
+                    let t = *t;
+                    if t == 0 {
+                        continue;
+                    }
+                    for seed in 0..8u64 {
+                        ctx.count("evaluations", 1);
+                        ctx.count("nontrivial", 1);
+                        let mut rng = Rng::new_seed(seed);
+                        let mut shadow = rng.clone();
+                        let got = f.pick_cube_uniform(&mut cache, &mut rng).map(|c| ob(&c));
+                        let (exp, _) = expected_cube(zbdd, t, n, &cur, |_, g1, g0| {
+                            use nanorand::Rng as _;
+                            let r: f64 = shadow.generate::<f64>();
+                            let a = g1.count_ones() as f64;
+                            let b = g0.count_ones() as f64;
+                            r < a / (a + b)
+                        });
+                        if got.as_ref() != Some(&exp) {
+                            ctx.viol(
+                                attrs(&[("kind", K::NAME), ("op", "pick_cube_uniform"), ("class", "biased_branch"), ("cache", "reused_across_reordering")]),
+                                case::<K>(n, &cur, "pick_cube_uniform", t, json!({"seed": seed, "reorderings_before": phase, "cache": "one SatCountCache for all functions, cache_all"}), &format!("{exp:?}"), &format!("{got:?}")),
+                                &format!("{} order {} (after {phase} reorderings, one reused count cache) pick_cube_uniform of {t:#x} seed {seed}: {got:?}, but models-proportional branching with the same random draws gives {exp:?}", K::NAME, model::order_str(&cur)),
+                            );
+                        }
+                    }
+                }
+            }
+        });
+    }
 }
